@@ -4,6 +4,7 @@ import LettreVerif.Proofs.DkimSig
 import LettreVerif.Proofs.MailboxEnc
 import LettreVerif.Proofs.Wire
 import LettreVerif.Proofs.TextFold
+import LettreVerif.Proofs.Utf8Runs
 /-!
 # C02 — Header section is well-formed and injection-proof for any supplied text
 
@@ -21,6 +22,13 @@ open LV LV.HeaderEnc LV.HeaderReader LV.Headers
 theorem value_wf (nameLen : Nat) (value : Bytes) (hu : ContRunsLe3 value) :
     scan .norm (encodeValue opts nameLen value) = some .norm :=
   encodeValue_wf true nameLen value hu
+
+/-- **The same for every Rust string, with no hypothesis.** A Rust `str` is the UTF-8 encoding of a sequence of scalar
+    values; `Proofs/Utf8Runs.lean` proves (over Lean's own UTF-8 encoder) that such octets never have four continuation
+    octets in a row, which is all `value_wf` asks. -/
+theorem value_wf_every_string (nameLen : Nat) (text : List Char) :
+    scan .norm (encodeValue opts nameLen (encodeUtf8 text)) = some .norm :=
+  value_wf nameLen _ (Utf8Runs.contRuns_str text)
 
 /-- An accepted header name is visible ASCII without ':' — it cannot contain CR, LF, HTAB,
     space or any control character. -/
@@ -144,6 +152,19 @@ theorem mailbox_header_wf (nameLen : Nat) (ms : List (Option Bytes × Bytes))
     (hm : ∀ m ∈ ms, (∀ n, m.1 = some n → HeaderEnc.ContRunsLe3 n) ∧ HeaderEnc.Plain m.2) :
     HeaderEnc.scan .norm (MailboxEnc.headerValue nameLen ms) = some .norm :=
   MailboxEnc.mailboxHeader_wf nameLen ms hm
+
+/-- the same with every display name any Rust string (no hypothesis on the names) -/
+theorem mailbox_header_wf_every_name (nameLen : Nat) (ms : List (Option (List Char) × Bytes))
+    (hm : ∀ m ∈ ms, HeaderEnc.Plain m.2) :
+    HeaderEnc.scan .norm (MailboxEnc.headerValue nameLen (ms.map fun m => (m.1.map encodeUtf8, m.2))) = some .norm := by
+  apply mailbox_header_wf
+  intro m hmem
+  obtain ⟨m', hm', rfl⟩ := List.mem_map.mp hmem
+  refine ⟨?_, hm m' hm'⟩
+  intro n hn
+  cases h : m'.1 with
+  | none => simp [h] at hn
+  | some x => simp only [h, Option.map_some, Option.some.injEq] at hn; subst hn; exact Utf8Runs.contRuns_str x
 
 /-- **No file name can break a Content-Disposition header.** For every file name (any Rust string of less than 10^20
     octets: quotes, backslashes, CR, LF, CRLF + an injected field, NUL, non-ASCII) and every printable `kind`, the value
